@@ -2,6 +2,7 @@
 \* bounded L1
 CONSTANTS
   Rule = "fixed"
+  StoreRead = "snapshot"
   Treadmill = FALSE
   Record = FALSE
   MaxBlock = 4
